@@ -100,6 +100,26 @@ def cli_hash_seeds(r, n_inputs, seeds):
             ev = os.path.join(d, "perc.tab")
             filegen.write_percolator(ev, [{"peptide": e, "proteins": list(ps), "pep": float(Fraction(sc))} for e, sc, ps in pil])
             flag = "--perc_evidence"
+        elif k % 3 == 1:
+            # a remapping method with TWO FASTA files (the digest maps of the files are merged peptide by peptide): every target protein
+            # is the concatenation of its tryptic peptides; the first member of every isoform family is in the first file, the rest in
+            # the second one, so peptides of the first file gain several proteins from the second
+            method = "picked_protein_group_mq_input"
+            ev = write_inputs(d, pil, r.rng)
+            flag = "--mq_evidence"
+            seqs = {}
+            for e, _, ps in pil:
+                for p_ in ps:
+                    if not p_.startswith("REV__"):
+                        seqs.setdefault(p_, []).append(e)
+            names = sorted(seqs)
+            first = {n for n in names if n.endswith("I0") or n.endswith("0")}
+            fa = [os.path.join(d, "canonical.fasta"), os.path.join(d, "isoforms.fasta")]
+            for path, sel in zip(fa, ([n for n in names if n in first], [n for n in names if n not in first])):
+                with open(path, "w") as fh:
+                    for n in sel:
+                        fh.write(f">{n}\n{''.join(seqs[n])}\n")
+            extra = ["--fasta"] + fa + ["--min-length", "4"]
         else:
             method = "picked_protein_group_mq_input_no_remap"
             ev = write_inputs(d, pil, r.rng)
@@ -112,7 +132,8 @@ def cli_hash_seeds(r, n_inputs, seeds):
             out = os.path.join(sub, "pg.txt")
             env = dict(env_base, PYTHONHASHSEED=str(hs))
             p = subprocess.Popen([sys.executable, "-W", "ignore", "-c", CLI_SCRIPT, flag, ev, "--methods", method,
-                                  "--protein_groups_out", out], env=env, cwd=sub, stdout=subprocess.DEVNULL, stderr=subprocess.PIPE)
+                                  "--protein_groups_out", out] + (extra if k % 3 == 1 else []), env=env, cwd=sub,
+                                 stdout=subprocess.DEVNULL, stderr=subprocess.PIPE)
             procs.append((hs, sub, p))
         for hs, sub, p in procs:
             _, err = p.communicate(timeout=300)
